@@ -123,7 +123,7 @@ def run(res, proofs_ok, proofs_why):
     root = os.path.join(c.BUILD, "scratch", "lng-%d" % os.getpid())
     shutil.rmtree(root, ignore_errors=True)
     os.makedirs(root)
-    recv = F.rand_record(rng)[:6] + (1,)
+    recv = F.rand_record(rng)[:5] + (50000, 1)      # a record both libraries answer from (the error outcomes of now() are the corpus's business)
     with open(os.path.join(root, "shm"), "wb") as fh:
         fh.write(F.header(gen=6) + F.record(recv))
     mono = recv[0] * NS + recv[1] + 2 * NS
